@@ -262,6 +262,8 @@ func scaleObjects() []*rj.Value {
 func neighbourObjects() []*rj.Value {
 	pairs := [][2]string{{"9007199254740990", "9007199254740991"}, {"4503599627370497", "4503599627370498"}, {"0.1", "0.10000000000000002"},
 		{"1e+308", "1.0000000000000002e+308"}, {"16777216", "16777217"}, {"-2147483648", "-2147483649"}, {"5e-324", "1e-323"}}
+	// ... and numbers that share their integer part (a comparison through an integer type calls them equal)
+	pairs = append(pairs, [2]string{"2", "2.5"}, [2]string{"-7", "-7.25"}, [2]string{"0", "0.5"}, [2]string{"2.25", "2.75"})
 	var out []*rj.Value
 	for _, p := range pairs {
 		for _, x := range p {
